@@ -189,6 +189,8 @@ Inductive robs := ObsGranted | ObsRefusedLocally | ObsNoAnswer | ObsDenied | Obs
 Record rcase := mk_rcase {
   rc_kind : rkind;
   rc_target_flags : flags;          (* the target's flags for this connection *)
+  rc_believed_flags : flags;        (* the target's flags as the requester's connection holds them
+                                       (honest: what the handshake delivered; rogue: everything on) *)
   rc_hist : list top; rc_name : N; rc_source : N;
   rc_expose : bool; rc_env_seen : bool;   (* requester's exposure switch; did its env arrive *)
   rc_obs : robs }.
@@ -197,7 +199,7 @@ Definition field_of (k : rkind) : flags -> bool := match k with KSpawn => f_spaw
 
 Definition robs_of (d : rdecision) : robs :=
   match d with
-  | RRefusedLocally => ObsRefusedLocally
+  | RRefusedLocally => ObsDenied   (* both surface as gen.ErrNotAllowed at the caller *)
   | RDropped => ObsNoAnswer
   | RAccess AUnknown => ObsUnknown
   | RAccess ADenied => ObsDenied
@@ -211,7 +213,7 @@ Definition robs_eqb (a b : robs) : bool :=
   end.
 
 Definition corr_req (c : rcase) : bool :=
-  robs_eqb (robs_of (remote_request (field_of (rc_kind c)) (wire_flags (rc_target_flags c)) (rc_target_flags c)
+  robs_eqb (robs_of (remote_request (field_of (rc_kind c)) (rc_believed_flags c) (rc_target_flags c)
                        (trun (rc_hist c)) (rc_name c) (rc_source c))) (rc_obs c) &&
   Bool.eqb (rc_env_seen c) (match rc_obs c with ObsGranted => rc_expose c | _ => false end).
 
@@ -222,7 +224,8 @@ Definition spec_req (c : rcase) : bool :=
    | _ => true end) &&
   (negb (rc_env_seen c) || rc_expose c).
 
-Definition premise_req (c : rcase) : bool := true.
+(* an honest requester believes what the handshake delivered *)
+Definition premise_req (c : rcase) : bool := flags_eqb (rc_believed_flags c) (wire_flags (rc_target_flags c)).
 
 (* ------------------------------------------------------------------------------------------------ *)
 (* conn: GetNode between two real nodes with node / acceptor / route cookies                          *)
